@@ -89,6 +89,20 @@ func Corpus11() []*GCase {
 			res = append(res, finish(&GCase{Kind: "corpus-int-width", Decl: d, Blocks: []Block{fixedBlock(1, fixedTx(0, []Log{l}, nil))}}))
 		}
 	}
+	{ // negative values whose magnitude lies around the machine-word boundaries, every signed width that holds them
+		for _, bits := range []int{72, 128, 256} {
+			ty := "int" + itoa(bits)
+			d := Decl{Name: "w_word" + itoa(bits), Event: "N", Inputs: []Input{
+				{Name: "a", Indexed: true, Type: ty, Column: "a"}, {Name: "b", Type: ty, Column: "b"},
+				{Name: "c", Type: ty + "[]", Column: "c"}}, Block: []BD{{Name: "abi_idx", Column: "abi_idx"}}}
+			l := BuildLog(d, d.SigHash(), []Val{
+				uintVal("-9223372036854775809"), uintVal("-18446744073709551615"),
+				{IsArr: true, Elems: []Val{uintVal("-9223372036854775808"), uintVal("-12345678901234567890"),
+					uintVal("-18446744073709551616"), uintVal("-18446744073709551617"), uintVal("9223372036854775808"),
+					uintVal("-4294967296"), uintVal("-2147483649")}}}, rep(0xaa, 20), 0)
+			res = append(res, finish(&GCase{Kind: "corpus-int-word-boundary", Decl: d, Blocks: []Block{fixedBlock(1, fixedTx(0, []Log{l}, nil))}}))
+		}
+	}
 	return res
 }
 
